@@ -63,7 +63,8 @@ class TakeLast(Blockwise):
                 # an empty partition carries nothing over
                 return None
             a = a.ffill()
-        return a.tail(n=1).squeeze()
+        # only squeeze the row axis: a one-column frame must carry a Series, not a scalar
+        return a.tail(n=1).squeeze(axis=0)
 
 
 def _aggregate_carry(aggregate, x, y):
